@@ -84,6 +84,52 @@ func init() {
 			<-done
 			c1.Close()
 		}
+		// several backend connections of one listener die (in every position of the list) before the next one is
+		// established: the prune that runs on every connect must cope with any number of dead entries
+		for mask := 0; mask < 32; mask++ {
+			item := &ProxyItem{transports: []ServerTransport{&vTrans{proto: "UDP", addr: "127.0.0.1", port: 5060}}, msgHandler: vNullHandler{}}
+			var peers []net.Conn
+			for k := 0; k < 5; k++ {
+				c1, c2 := net.Pipe()
+				item.connectionEstablished(&vPipeConn{Conn: c1}, true, NewSelfLearnRoute())
+				peers = append(peers, c2)
+			}
+			dead := 0
+			for k := 0; k < 5; k++ {
+				if mask>>uint(k)&1 == 1 {
+					peers[k].Close()
+					dead++
+				}
+			}
+			// wait until the receive goroutines of the closed connections have noticed
+			deadline := time.Now().Add(2 * time.Second)
+			for time.Now().Before(deadline) {
+				n := 0
+				item.Lock()
+				for _, t := range item.transports {
+					if t.IsExit() {
+						n++
+					}
+				}
+				item.Unlock()
+				if n == dead {
+					break
+				}
+				time.Sleep(200 * time.Microsecond)
+			}
+			c1, c2 := net.Pipe()
+			item.connectionEstablished(&vPipeConn{Conn: c1}, true, NewSelfLearnRoute())
+			item.Lock()
+			left := len(item.transports)
+			item.Unlock()
+			if left != 1+5-dead+1 {
+				return fmt.Sprintf("prune-wrong mask=%d transports=%d expected=%d", mask, left, 1+5-dead+1)
+			}
+			c2.Close()
+			for _, pc := range peers {
+				pc.Close()
+			}
+		}
 		return "ok"
 	})
 	// race inproc <listeners> <millis> <seed>: several real Proxy loops of ONE service (shared self-learned
